@@ -917,6 +917,10 @@ func (*Context).evaluate
   ghost at loop 3 begin: if blockIndex >= 1 { gblk = blockStack[blockIndex-1] }; if fstrBlockIndex >= 1 { gfblk = fstrBlockStack[fstrBlockIndex-1] }
   ghost at precall 1 CallbackSt: stCalls = stCalls + 1; ghostAssert(arg0 == "set" && arg2 != nil && isFresh(arg2) && arg4 == "" && arg5 == "")
   ghost at precall 2 CallbackSt: stCalls = stCalls + 1; ghostAssert(arg0 == "mod" && arg2 != nil && isFresh(arg2) && arg4 == stInfo.Op && arg5 == stInfo.Text)
+  ghost at precall 2 CallbackSt: ghostAssert(stInfo.Op != "-" ==> arg2.TypeId == glastT && arg2.Value == glastV); ghostAssert(stInfo.Op == "-" && glastT == VMTypeInt ==> arg2.TypeId == VMTypeInt && arg2.Value.(IntType) == wrapInt(-glastV.(IntType))); ghostAssert(stInfo.Op == "-" && glastT == VMTypeFloat ==> arg2.TypeId == VMTypeFloat && sameFloat(arg2.Value.(float64), -glastV.(float64))); ghostAssert(stInfo.Op == "-" ==> glastT == VMTypeInt || glastT == VMTypeFloat)
+  ghost at precall 1 CallbackSt: ghostAssert(arg2.TypeId == glastT && arg2.Value == glastV)
+  ghost at precall 3 CallbackSt: ghostAssert(arg2.TypeId == glastT && arg2.Value == glastV)
+  ghost at precall 4 CallbackSt: ghostAssert(arg2.TypeId == glastT && arg2.Value == glastV)
   ghost at precall 3 CallbackSt: stCalls = stCalls + 1; ghostAssert(arg0 == "set.x0" && arg2 != nil && isFresh(arg2))
   ghost at precall 4 CallbackSt: stCalls = stCalls + 1; ghostAssert(arg0 == "set.x1" && arg2 != nil && isFresh(arg2) && arg3 != nil && isFresh(arg3))
   ghost at precall 1 fn: cdCalls = cdCalls + 1; ghostAssert(arg0 == ctx && (arg1 == nil || isFresh(arg1)) && len(arg1) == len(compiled.groups))
@@ -1202,7 +1206,7 @@ func (*VMValue).OpPositive
 func (*VMValue).OpNegation
   props C02 C01
   ensures [C02] v.TypeId == VMTypeInt ==> result != nil && result.TypeId == VMTypeInt && result.Value.(IntType) == wrapInt(-old(v.Value.(IntType)))
-  ensures [C02] v.TypeId == VMTypeFloat ==> result != nil && result.TypeId == VMTypeFloat
+  ensures [C02] v.TypeId == VMTypeFloat ==> result != nil && result.TypeId == VMTypeFloat && sameFloat(result.Value.(float64), -old(v.Value.(float64)))
   ensures [C02] v.TypeId != VMTypeInt && v.TypeId != VMTypeFloat ==> result == nil
 
 func getRealIndex
